@@ -80,7 +80,7 @@ func (t *Ticker) Fire() bool {
 	select {
 	case t.c <- time.Unix(0, 0):
 		return true
-	case <-time.After(2 * time.Second):
+	case <-time.After(120 * time.Second): // liveness watchdog only, never a safety oracle
 		return false
 	}
 }
